@@ -6,12 +6,17 @@
 set -u
 VERIF="$(cd "$(dirname "$0")/.." && pwd)"
 BUDGET="${1:-40}"
+shift || true
+ONLY=" $* "   # optional: only these commits (their rows in the result file are replaced)
 OUT="$VERIF/selftest/revert_sweep.tsv"
 mkdir -p "$VERIF/selftest" "$VERIF/replays/fixed"
 cp -r "$VERIF/evidence" /tmp/evidence.bak.$$ 2>/dev/null
-: > "$OUT"
+if [ "$ONLY" = "  " ]; then : > "$OUT"; fi
 while read -r commit props; do
   [ -z "$commit" ] && continue
+  if [ "$ONLY" != "  " ]; then
+    case "$ONLY" in *" $commit "*) grep -v "^$commit" "$OUT" > "$OUT.tmp"; mv "$OUT.tmp" "$OUT";; *) continue;; esac
+  fi
   WT="/tmp/wt-$commit"
   git -C /repo worktree remove --force "$WT" 2>/dev/null
   git -C /repo worktree add -q --detach "$WT" HEAD || { echo -e "$commit\t-\tworktree-failed" >> "$OUT"; continue; }
@@ -54,6 +59,9 @@ a735b3c C16
 f69a6d3 C16
 1381041 C18
 d4a3bb1 C16
+9d63e39 C14
+47c1c52 C14 C15
+72c542d C08 C02
 LIST
 rm -rf "$VERIF/evidence"; cp -r /tmp/evidence.bak.$$ "$VERIF/evidence"; rm -rf /tmp/evidence.bak.$$
 echo "revert sweep done: $OUT"
